@@ -23,6 +23,8 @@ import (
 	"fmt"
 	"os"
 	"path/filepath"
+	"regexp"
+	"strconv"
 	"strings"
 
 	"github.com/go-git/go-git/v6/plumbing"
@@ -51,8 +53,12 @@ copy() {
   while IFS= read -r line; do printf '%s\n' "$line"; done
   [ -n "$line" ] && printf '%s' "$line"
 }
-copy > "$CAP_DIR/$CAP_ID.payload"
-copy < "$sig" > "$CAP_DIR/$CAP_ID.sig"
+n=0
+[ -f "$CAP_DIR/$CAP_ID.n" ] && read -r n < "$CAP_DIR/$CAP_ID.n"
+n=$((n+1))
+echo "$n" > "$CAP_DIR/$CAP_ID.n"
+copy > "$CAP_DIR/$CAP_ID.$n.payload"
+copy < "$sig" > "$CAP_DIR/$CAP_ID.$n.sig"
 case " $* " in
   *" -Y "*) echo 'Good "git" signature for fake-principal with ED25519 key SHA256:abc';;
   *) printf '[GNUPG:] GOODSIG 0123456789ABCDEF Fake Signer <f@x>\n[GNUPG:] VALIDSIG 0123456789ABCDEF0123456789ABCDEF01234567 2023-01-01 1700000000 0 4 0 1 8 00 0123456789ABCDEF0123456789ABCDEF01234567\n[GNUPG:] TRUST_ULTIMATE 0 pgp\n';;
@@ -80,6 +86,32 @@ var c03TagKinds = []aLine{
 	{"gpgsig-sha256", aHdr("gpgsig-sha256", aPGP2)},
 	{"gpgsig", aHdr("gpgsig", aPGP)},
 	{"foo", "foo bar\n"},
+}
+
+// c03WsKinds: multi-line NON-signature headers with a continuation line that
+// holds only white space (as the last continuation line, with TAB, with CR,
+// with two blanks) — the neighbourhood of "is this the blank line that ends the
+// header block?".
+var c03WsKinds = []aLine{
+	{"cont-trailing-blank", "bar a\n \n"},
+	{"cont-tab", "bar a\n \t\n b\n"},
+	{"cont-cr", "bar a\n \r\n b\n"},
+	{"cont-2sp", "bar a\n  \n b\n"},
+	{"mergetag-trailing-blank", aHdr("mergetag", "object "+aParentIDs[1]+"\ntype commit\ntag v0\ntagger T <t@x> 1 +0000\n\nmerged\n") + " \n"},
+}
+
+// c03WhitespaceCases: each of them before gpgsig, after gpgsig, before
+// gpgsig-sha256 and between author and committer of a signed commit.
+func c03WhitespaceCases() []aCase {
+	var out []aCase
+	a, cm := aCommitLineKinds[0], aCommitLineKinds[1]
+	sig, sig256 := c03CommitKinds[0], c03CommitKinds[2]
+	for _, w := range c03WsKinds {
+		for _, lines := range [][]aLine{{a, cm, w, sig}, {a, cm, sig, w}, {a, cm, w, sig256}, {a, w, cm, sig}} {
+			out = append(out, aCase{Kind: "commit", Parents: 1, Lines: lines, Msg: c03CommitMsgs[0]})
+		}
+	}
+	return out
 }
 
 // c03CommitCases: author before committer, with every ordered selection of
@@ -164,16 +196,83 @@ func (e *c03Env) capture(kind, id, capID string) c03Cap {
 	}
 	r := e.g.With("CAP_ID="+capID).Run(cmd, id)
 	out := c03Cap{exit: r.Code, stderr: string(r.Err)}
-	p, err1 := os.ReadFile(filepath.Join(e.capDir, capID+".payload"))
-	s, err2 := os.ReadFile(filepath.Join(e.capDir, capID+".sig"))
+	p, err1 := os.ReadFile(filepath.Join(e.capDir, capID+".1.payload"))
+	s, err2 := os.ReadFile(filepath.Join(e.capDir, capID+".1.sig"))
+	os.Remove(filepath.Join(e.capDir, capID+".n"))
 	if err1 == nil && err2 == nil {
 		out.ran, out.payload, out.sig = true, p, s
-		os.Remove(filepath.Join(e.capDir, capID+".payload"))
-		os.Remove(filepath.Join(e.capDir, capID+".sig"))
+		os.Remove(filepath.Join(e.capDir, capID+".1.payload"))
+		os.Remove(filepath.Join(e.capDir, capID+".1.sig"))
 	} else if r.Code == 0 {
 		fw.Abort("git %s %s succeeded without running the verifier", cmd, id)
 	}
 	return out
+}
+
+// captureBatch runs ONE `git verify-commit|verify-tag id...` for all ids; the
+// fake verifier numbers its invocations, and each captured payload is mapped
+// back to its object through the per-object token (c03Token) that every
+// object of the grammar carries in a line that is always part of the payload.
+// Objects for which the verifier was not run are absent from the result.
+func (e *c03Env) captureBatch(kind string, ids []string, capID string) map[int]c03Cap {
+	cmd := "verify-commit"
+	if kind == "tag" {
+		cmd = "verify-tag"
+	}
+	e.g.With("CAP_ID=" + capID).Run(append([]string{cmd}, ids...)...)
+	out := map[int]c03Cap{}
+	dup := map[int]bool{}
+	for n := 1; ; n++ {
+		pf, sf := filepath.Join(e.capDir, fmt.Sprintf("%s.%d.payload", capID, n)), filepath.Join(e.capDir, fmt.Sprintf("%s.%d.sig", capID, n))
+		p, err1 := os.ReadFile(pf)
+		s, err2 := os.ReadFile(sf)
+		if err1 != nil || err2 != nil {
+			break
+		}
+		os.Remove(pf)
+		os.Remove(sf)
+		tok, ok := c03TokenOf(kind, p)
+		if !ok {
+			continue // left to the one-by-one path
+		}
+		if _, twice := out[tok]; twice {
+			dup[tok] = true
+		}
+		out[tok] = c03Cap{ran: true, payload: p, sig: s}
+	}
+	os.Remove(filepath.Join(e.capDir, capID+".n"))
+	for tok := range dup {
+		delete(out, tok) // ambiguous: left to the one-by-one path
+	}
+	return out
+}
+
+var (
+	c03CommitTokRe = regexp.MustCompile(`(?m)^author [^\n]*<author\+(\d+)@example\.com>`)
+	c03TagTokRe    = regexp.MustCompile(`(?m)^tag v1-(\d+)$`)
+)
+
+// c03WithToken makes the object unique and recognisable: commits carry the case
+// number in the author's e-mail address, tags in the tag name. Neither line is
+// ever removed from a verification payload.
+func c03WithToken(kind string, raw []byte, idx int) []byte {
+	if kind == "commit" {
+		return bytes.Replace(raw, []byte("<author@example.com>"), []byte(fmt.Sprintf("<author+%d@example.com>", idx)), 1)
+	}
+	return bytes.Replace(raw, []byte("\ntag v1\n"), []byte(fmt.Sprintf("\ntag v1-%d\n", idx)), 1)
+}
+
+func c03TokenOf(kind string, payload []byte) (int, bool) {
+	re := c03CommitTokRe
+	if kind == "tag" {
+		re = c03TagTokRe
+	}
+	m := re.FindSubmatch(payload)
+	if m == nil {
+		return 0, false
+	}
+	n, err := strconv.Atoi(string(m[1]))
+	return n, err == nil
 }
 
 func c03Armoured(s string) bool {
@@ -210,8 +309,11 @@ func runC03(c *fw.Ctx) {
 	c.Bound("tag_max_lines", maxTag)
 	c.Bound("tag_messages", 3+len(aTagSigMsgs))
 	c.Bound("mutated_variants_for_objects_with_extra_lines_up_to", mutExtra)
-	c.Bound("sha256_repository", "commits with <= 1 extra line")
-	c.SetRule("commits = author, committer + every ordered selection of <= max sig-related lines {gpgsig(PGP), 2nd gpgsig(SSH), gpgsig-sha256, foo, mergetag with armoured block, continuation header} at every position x 3 messages; tags = <= max lines of {tagger, gpgsig-sha256, gpgsig, foo} x 11 messages (inline PGP/SSH/X509/PGP MESSAGE, two blocks, text after block, armour not at line start); one `git verify-commit|verify-tag` per object with a capturing fake gpg/gpgsm/ssh-keygen; compared with EncodeWithoutSignature bytes and the Signature field; plus mutated variants (Message, name, Signature cleared); an evaluation is one (object, variant) compared against one git capture; class = (kind, line labels, message, variant, did git run the verifier, verdict)")
+	c.Bound("sha256_repository", "commits with <= 1 extra line + the whitespace-continuation family")
+	c.Bound("whitespace_continuation_family", fmt.Sprintf("%d header kinds x {before gpgsig, after gpgsig, before gpgsig-sha256, between author and committer}", len(c03WsKinds)))
+	c.Bound("long_line_cases", len(aLongLineCases()))
+	c.Bound("verify_batch_size", c03BatchSize)
+	c.SetRule("commits = author, committer + every ordered selection of <= max sig-related lines {gpgsig(PGP), 2nd gpgsig(SSH), gpgsig-sha256, foo, mergetag with armoured block, continuation header} at every position x 3 messages; tags = <= max lines of {tagger, gpgsig-sha256, gpgsig, foo} x 11 messages (inline PGP/SSH/X509/PGP MESSAGE, two blocks, text after block, armour not at line start); `git verify-commit|verify-tag` (one process per batch of objects, payloads mapped back through a per-object token in the author e-mail / tag name) with a capturing fake gpg/gpgsm/ssh-keygen; plus signed commits with whitespace-only continuation lines in non-signature headers and objects with 5000/70000-byte lines; compared with EncodeWithoutSignature bytes and the Signature field; plus mutated variants (Message, name, Signature cleared); an evaluation is one (object, variant) compared against one git capture; class = (kind, line labels, message, variant, did git run the verifier, verdict)")
 	c.Assume("git 2.39.5 verify-commit/verify-tag: what the configured gpg program receives on stdin is the payload, the file it is handed is the signature; the capturing script copies text exactly (the grammar has no NUL bytes in signed objects)")
 	c.Assume("'the signature go-git extracts' = the field Commit.Verify / Tag.Verify pass to the verifier: Commit.Signature, Tag.Signature")
 	c.Assume("mutated variant oracle: the mutated struct's full encoding is stored in git and git's captured payload for THAT object is the expected EncodeWithoutSignature of the mutated struct")
@@ -219,14 +321,33 @@ func runC03(c *fw.Ctx) {
 	for _, format := range []string{"sha1", "sha256"} {
 		e := c03NewEnv(c, format)
 		var cases []aCase
+		// order (it only matters when the deadline cuts the run): the
+		// whitespace-continuation and long-line families, then the commits with
+		// author and committer where git writes them, the tags, the rest
+		canon := func(all []aCase, want bool) []aCase {
+			var out []aCase
+			for _, k := range all {
+				lb := k.Labels()
+				if (len(lb) >= 2 && lb[0] == "author" && lb[1] == "committer") == want {
+					out = append(out, k)
+				}
+			}
+			return out
+		}
 		if format == "sha1" {
-			cases = append(c03CommitCases(maxExtra), c03TagCases(maxTag)...)
+			all := c03CommitCases(maxExtra)
+			cases = append(c03WhitespaceCases(), aLongLineCases()...)
+			cases = append(cases, canon(all, true)...)
+			cases = append(cases, c03TagCases(maxTag)...)
+			cases = append(cases, canon(all, false)...)
 		} else {
-			cases = c03CommitCases(1)
+			all := c03CommitCases(1)
+			cases = append(c03WhitespaceCases(), canon(all, true)...)
+			cases = append(cases, canon(all, false)...)
 		}
 		objs := make([]aObj, len(cases))
 		for i, k := range cases {
-			objs[i] = aObj{k.Kind, c03Raw(k, format)}
+			objs[i] = aObj{k.Kind, c03WithToken(k.Kind, c03Raw(k, format), i)}
 		}
 		ids := aStoreObjects(e.g, format, objs)
 		// mutated variants: encode the mutated structs now, store them all in
@@ -247,11 +368,63 @@ func runC03(c *fw.Ctx) {
 			}
 			aStoreObjects(e.g, format, mobjs)
 		}
-		c.ParDo(len(cases), 0, func(i int) {
-			c03One(e, format, cases[i], objs[i].Data, ids[i], i, muts[i])
+		// batches of consecutive cases of one kind: one git process verifies the
+		// whole batch (and one per mutation), then the go-git side is compared
+		type batch struct {
+			kind string
+			idx  []int
+		}
+		var batches []batch
+		for i, k := range cases {
+			if n := len(batches); n == 0 || batches[n-1].kind != k.Kind || len(batches[n-1].idx) >= c03BatchSize {
+				batches = append(batches, batch{kind: k.Kind})
+			}
+			b := &batches[len(batches)-1]
+			b.idx = append(b.idx, i)
+		}
+		c.ParDo(len(batches), 0, func(bi int) {
+			bt := batches[bi]
+			if c.Expired() {
+				c.Incomplete(fmt.Sprintf("internal deadline reached before batch %d of %d (%s)", bi, len(batches), format))
+				return
+			}
+			caps := map[int]map[string]c03Cap{}
+			for _, i := range bt.idx {
+				caps[i] = map[string]c03Cap{}
+			}
+			var bids []string
+			for _, i := range bt.idx {
+				bids = append(bids, ids[i])
+			}
+			for tok, cp := range e.captureBatch(bt.kind, bids, fmt.Sprintf("%s-b%d", format, bi)) {
+				if m, ok := caps[tok]; ok {
+					m["as-decoded"] = cp
+				}
+			}
+			for _, mut := range c03Mutations {
+				var mids []string
+				for _, i := range bt.idx {
+					if full, ok := muts[i][mut]; ok {
+						mids = append(mids, aRawID(format, bt.kind, full))
+					}
+				}
+				if len(mids) == 0 {
+					continue
+				}
+				for tok, cp := range e.captureBatch(bt.kind, mids, fmt.Sprintf("%s-b%d-%s", format, bi, mut)) {
+					if m, ok := caps[tok]; ok {
+						m[mut] = cp
+					}
+				}
+			}
+			for _, i := range bt.idx {
+				c03One(e, format, cases[i], objs[i].Data, ids[i], i, muts[i], caps[i])
+			}
 		})
 	}
 }
+
+const c03BatchSize = 24
 
 var c03Mutations = []string{"message-mutated", "name-mutated"}
 
@@ -341,13 +514,17 @@ func c03Raw(k aCase, format string) []byte {
 		return raw
 	}
 	s := string(raw)
-	for _, id := range append([]string{aTreeID}, aParentIDs...) {
-		s = strings.ReplaceAll(s, id, id+id[:24])
+	done := map[string]bool{}
+	for _, id := range append(append([]string{aTreeID}, aParentIDs...), aTagTargets["commit"], aTagTargets["tree"], aTagTargets["blob"], aTagTargets["tag"]) {
+		if !done[id] {
+			done[id] = true
+			s = strings.ReplaceAll(s, id, id+id[:24])
+		}
 	}
 	return []byte(s)
 }
 
-func c03One(e *c03Env, format string, k aCase, raw []byte, id string, idx int, muts map[string][]byte) {
+func c03One(e *c03Env, format string, k aCase, raw []byte, id string, idx int, muts map[string][]byte, caps map[string]c03Cap) {
 	c := e.c
 	sigClass := c03SigClass(k)
 	fail := func(kind, variant, got, want string, extra map[string]any) {
@@ -402,9 +579,16 @@ func c03One(e *c03Env, format string, k aCase, raw []byte, id string, idx int, m
 		})
 		return b, sig, perr
 	}
-	compare := func(variant string, cap c03Cap, wantSigToo bool) {
+	capID := fmt.Sprintf("%s-%d", format, idx)
+	compare := func(variant string, cap c03Cap, wantSigToo bool, objID string) {
 		c.Eval()
 		pay, sig, perr := payloadOf()
+		if !cap.ran && perr == "" && wantSigToo && c03Armoured(sig) {
+			// the batch did not run the verifier for this object but go-git
+			// holds a signature: ask git about this object alone (exit code
+			// and message decide the class)
+			cap = e.capture(k.Kind, objID, capID+"-"+variant)
+		}
 		verdict := "agree"
 		switch {
 		case perr != "":
@@ -441,9 +625,8 @@ func c03One(e *c03Env, format string, k aCase, raw []byte, id string, idx int, m
 			c.Sample(map[string]any{"format": format, "object": k.Desc(), "id": id, "git_ran_verifier": cap.ran, "git_payload": string(cap.payload), "git_signature": string(cap.sig), "verdict": verdict})
 		}
 	}
-	capID := fmt.Sprintf("%s-%d", format, idx)
-	base := e.capture(k.Kind, id, capID)
-	compare("as-decoded", base, true)
+	base := caps["as-decoded"]
+	compare("as-decoded", base, true, id)
 
 	// --- mutated variants (bounded subset)
 	if muts == nil {
@@ -457,7 +640,7 @@ func c03One(e *c03Env, format string, k aCase, raw []byte, id string, idx int, m
 		} else {
 			save, tg.Signature = tg.Signature, ""
 		}
-		compare("signature-cleared", base, false)
+		compare("signature-cleared", base, false, id)
 		if cm != nil {
 			cm.Signature = save
 		} else {
@@ -473,8 +656,7 @@ func c03One(e *c03Env, format string, k aCase, raw []byte, id string, idx int, m
 			continue
 		}
 		undo := c03Mutate(cm, tg, mut)
-		mcap := e.capture(k.Kind, aRawID(format, k.Kind, full), capID+"-"+mut)
-		compare(mut, mcap, false)
+		compare(mut, caps[mut], false, aRawID(format, k.Kind, full))
 		undo()
 	}
 }
